@@ -372,13 +372,8 @@ theorem Good.protect {ps : List Piece} {c : List String} (h : Good ps c) : Good 
 theorem render_protectP (ps : List Piece) : render (protectP ps) = protectStatementStart (render ps) := by
   unfold protectP protectStatementStart
   split
-  · rename_i h
-    simp only [h, render_text, render_append, render_nil, String.append_empty, String.append_assoc]
-  · rename_i h
-    split
-    · rename_i c h2
-      exact absurd h2 (h _)
-    · rfl
+  · simp only [render_text, render_append, render_nil, String.append_empty, String.append_assoc]
+  · rfl
 
 /-! ### the per-kind layouts keep the comments of the parts they are given -/
 
